@@ -534,8 +534,33 @@ func ruleMustUpdate(r *Run) {
 				instVals = append(instVals, x.Value)
 			}
 		case *ssa.Call:
-			if cal := staticCallee(x); calleeIs(cal, "updateNumberingFile") {
+			cal := staticCallee(x)
+			if calleeIs(cal, "updateNumberingFile") {
 				upd = append(upd, x)
+			}
+			// a registering helper (manager.registerInstance(numID, abstractNumID)): it stores into the
+			// instance registry on every path; what the instance refers to comes in as an argument
+			if cal != nil && p.inModule(cal) && len(cal.Blocks) > 0 {
+				var stores []ssa.Instruction
+				allInstrs(cal, func(in2 ssa.Instruction) {
+					if mu, ok := in2.(*ssa.MapUpdate); ok {
+						if ch, _ := addrChain(mu.Map); len(ch) > 0 && ch[len(ch)-1] != nil && ch[len(ch)-1].Name() == "numInstances" {
+							stores = append(stores, mu)
+						}
+					}
+				})
+				if len(stores) > 0 {
+					always := true
+					for _, ret := range returnsOf(cal) {
+						if !mustPassThrough(cal, ret, stores) {
+							always = false
+						}
+					}
+					if always {
+						regInst = append(regInst, x)
+						instVals = append(instVals, x.Call.Args...)
+					}
+				}
 			}
 		}
 	})
